@@ -15,7 +15,8 @@ CONSTANTS GROUPS,     \* catalogue names
           TRANSPOSE,  \* TRUE: rank-2 quantities may also transpose under TR / inversion (transform_trans)
           Declared    \* "true": the result declares its true parities; "flipInv"/"flipTR": wrong declaration (sensitivity)
 
-NSq == {<<2, 2, 1>>, <<4, 2, 1>>, <<4, 4, 1>>, <<3, 3, 1>>, <<2, 2, 2>>}
+NSq == {<<4, 2, 1>>, <<4, 4, 1>>, <<3, 3, 1>>, <<2, 2, 2>>}
+NSdq == {<<2, 2, 1>>, <<3, 3, 1>>}
 NSd == {<<2, 2, 1>>, <<4, 2, 1>>, <<3, 3, 1>>, <<2, 2, 2>>}
 NSt == NSq \cup {<<6, 6, 1>>, <<6, 3, 1>>, <<4, 4, 2>>, <<4, 2, 2>>, <<3, 3, 2>>, <<3, 3, 3>>, <<2, 2, 4>>}
 NSs == {<<2, 2, 1>>, <<4, 4, 1>>}
